@@ -27,6 +27,8 @@ from pyscf.grad import uks as uks_grad
 from pyscf.grad.rks import grids_noresponse_cc, grids_response_cc
 from pyscf.lib import logger
 
+from ciderpress.pyscf.rks_grad import _check_response_weights
+
 
 def get_veff(ks_grad, mol=None, dm=None):
     """
@@ -471,6 +473,7 @@ def get_vxc_nldf_full_response(
         mask = gen_grid.make_mask(mol, coords)
         ao = ni.eval_ao(mol, coords, deriv=ao_deriv, non0tab=mask, cutoff=grids.cutoff)
         ip0, ip1 = ga_loc[atm_id : atm_id + 2]
+        _check_response_weights(grids, weight, ip0, ip1)
 
         mask = gen_grid.make_mask(mol, coords)
         ao = ni.eval_ao(mol, coords, deriv=ao_deriv, non0tab=mask, cutoff=grids.cutoff)
